@@ -34,6 +34,7 @@ var outcomeNames = map[byte]string{'s': "same", 'i': "io", 'm': "malformed", 'd'
 func caseInfo(d *doc, what string, k, total int, fm fmode, l label, got result) map[string]any {
 	c := map[string]any{
 		"doc": d.name, "doc_class": d.class, "call": what, "k": k, "reads_in_clean_run": total,
+		"fault_error_shape": curShape.name, "fault_error_text": errInj.Error(),
 		"fault": fm.String() + "-k",
 		"read_phase": l.phase, "read_kind": string(l.kind),
 		"doc_sha256": fmt.Sprintf("%x", sha256.Sum256(d.data)), "doc_len": len(d.data),
@@ -56,7 +57,11 @@ func caseInfo(d *doc, what string, k, total int, fm fmode, l label, got result) 
 func judge(d *doc, what string, opKind string, k, total int, fm fmode, l label, clean, got result) byte {
 	o := classify(clean, got)
 	nontrivial := got.fired || got.timeout
-	e.Count(nontrivial, fmt.Sprintf("%s|%s|%d|%v", d.name, what, k, fm), fmt.Sprintf("%s/%c/%s", opKind, l.kind, outcomeNames[o]))
+	cls := fmt.Sprintf("%s/%c/%s", opKind, l.kind, outcomeNames[o])
+	if curShape.name != "plain" {
+		cls = "shape:" + curShape.name + "/" + outcomeNames[o]
+	}
+	e.Count(nontrivial, fmt.Sprintf("%s|%s|%d|%v|%s", d.name, what, k, fm, curShape.name), cls)
 	if o != 's' && o != 'i' {
 		ph := l.phase
 		if ph == "" {
@@ -71,8 +76,14 @@ func judge(d *doc, what string, opKind string, k, total int, fm fmode, l label, 
 			// MakeReader's getTrailer: one cause whatever kind of read fails
 			sig = fmt.Sprintf("read:%s:MakeReader.getTrailer", outcomeNames[o])
 		}
-		msg := fmt.Sprintf("%s of %s with the byte source failing %s at ReadAt #%d/%d (%s/%c): %s",
-			what, d.class, fm.String(), k, total, l.phase, l.kind, outcomeNames[o])
+		if curShape.name == "wrapEOF" || curShape.name == "isEOF" {
+			// one cause whatever the call: errors.Is(err, io.EOF) where == is meant
+			sig = fmt.Sprintf("read:%s:source-error-wrapping-EOF", outcomeNames[o])
+		} else if curShape.name != "plain" {
+			sig += ":fault-error=" + curShape.name
+		}
+		msg := fmt.Sprintf("%s of %s with the byte source failing %s (error shape %s: %q) at ReadAt #%d/%d (%s/%c): %s",
+			what, d.class, fm.String(), curShape.name, errInj.Error(), k, total, l.phase, l.kind, outcomeNames[o])
 		if got.err != nil {
 			msg += ": " + trunc(got.err.Error(), 120)
 		}
@@ -90,6 +101,16 @@ func failCapped(sig, what string, c any) {
 	failsPerSig[sig]++
 	if failsPerSig[sig] <= 6 {
 		e.Fail(sig, what, c)
+	}
+}
+
+// corrLine writes a line of the model correspondence.  The extracted programs
+// do not depend on what the injected error looks like, so only the runs with
+// the plain sentinel are compared with them; the other error shapes are judged
+// by the direct oracle.
+func corrLine(name, format string, a ...any) {
+	if curShape.name == "plain" {
+		e.Line(name, format, a...)
 	}
 }
 
@@ -185,13 +206,13 @@ func exploreOpen(di int, d *doc, mi int) {
 	if clean.err == nil {
 		rec = fmt.Sprint(nerr)
 	}
-	for _, fm := range fmodes {
-		id := fmt.Sprintf("d%d.open.%s.%s", di, m.name, fm.String())
+	for _, fm := range activeModes {
+		id := fmt.Sprintf("%s.open.%s.%s", docID(di), m.name, fm.String())
 		bad := d.bad
 		if bad == "" {
 			bad = "-"
 		}
-		e.Line("cases.txt", "%s O %d %s %s %s", id, int(m.m), fm.String(), bad, groupsString(labels))
+		corrLine("cases.txt", "%s O %d %s %s %s", id, int(m.m), fm.String(), bad, groupsString(labels))
 		letters := make([]byte, 0, total)
 		for k := 1; k <= total; k++ {
 			fs := &faultSrc{data: d.data}
@@ -209,7 +230,7 @@ func exploreOpen(di int, d *doc, mi int) {
 			got.fired = fs.fired
 			letters = append(letters, judge(d, "NewReader/"+m.name, "open", k, total, fm, labels[k-1], clean, got))
 		}
-		e.Line("impl.obs", "%s %s clean=%s rec=%s", id, dash(string(letters)), cleanClass(clean), rec)
+		corrLine("impl.obs", "%s %s clean=%s rec=%s", id, dash(string(letters)), cleanClass(clean), rec)
 	}
 }
 
@@ -237,8 +258,8 @@ func exploreOps(di int, d *doc, allModes bool) {
 	// the data-with-error modes triple the work: in the quick tier they are
 	// enumerated for every open path of every document, and for the Get / drain /
 	// decode calls of the hand-written documents and the first writer-made ones
-	opModes := fmodes
-	if !allModes {
+	opModes := activeModes
+	if !allModes && len(opModes) > 2 && curShape.name == "plain" {
 		opModes = fmodes[:2]
 	}
 	streams := map[pdf.Reference]*pdf.Stream{}
@@ -274,8 +295,8 @@ func exploreOps(di int, d *doc, allModes bool) {
 			cb = 1
 		}
 		for _, fm := range opModes {
-			id := fmt.Sprintf("d%d.op%d.%s", di, j, fm.String())
-			e.Line("cases.txt", "%s %c %s %d %s", id, o.kind, fm.String(), cb, kindsString(labels))
+			id := fmt.Sprintf("%s.op%d.%s", docID(di), j, fm.String())
+			corrLine("cases.txt", "%s %c %s %d %s", id, o.kind, fm.String(), cb, kindsString(labels))
 			letters := make([]byte, 0, total)
 			for k := 1; k <= total; k++ {
 				src.arm(k, fm)
@@ -308,7 +329,7 @@ func exploreOps(di int, d *doc, allModes bool) {
 					}
 				}
 			}
-			e.Line("impl.obs", "%s %s", id, dash(string(letters)))
+			corrLine("impl.obs", "%s %s", id, dash(string(letters)))
 		}
 	}
 }
@@ -349,13 +370,13 @@ func exploreSeq(di int, d *doc, mi int) {
 		failCapped("read:clean-run-broken", "fault-free SequentialScan/MakeReader hangs or panics on "+d.class, caseInfo(d, "SequentialScan+MakeReader/"+m.name, 0, total, fmFrom, label{}, clean))
 		return
 	}
-	for _, fm := range fmodes {
-		id := fmt.Sprintf("d%d.seq.%s.%s", di, m.name, fm.String())
+	for _, fm := range activeModes {
+		id := fmt.Sprintf("%s.seq.%s.%s", docID(di), m.name, fm.String())
 		bad := d.bad
 		if bad == "" {
 			bad = "-"
 		}
-		e.Line("cases.txt", "%s Q %d %s %s %s", id, int(m.m), fm.String(), bad, groupsString(labels))
+		corrLine("cases.txt", "%s Q %d %s %s %s", id, int(m.m), fm.String(), bad, groupsString(labels))
 		letters := make([]byte, 0, total)
 		for k := 1; k <= total; k++ {
 			fs := &faultSrc{data: d.data}
@@ -367,7 +388,7 @@ func exploreSeq(di int, d *doc, mi int) {
 			got.fired = fs.fired
 			letters = append(letters, judge(d, "SequentialScan+MakeReader/"+m.name, "seqopen", k, total, fm, labels[k-1], clean, got))
 		}
-		e.Line("impl.obs", "%s %s", id, dash(string(letters)))
+		corrLine("impl.obs", "%s %s", id, dash(string(letters)))
 	}
 }
 
@@ -384,11 +405,14 @@ func main() {
 		c := wcfg{
 			v:        versions[i%len(versions)],
 			human:    i%5 == 4,
-			encrypt:  i%3 == 2,
+			encrypt:  i%3 == 2 && (e.Thorough || i < 9), // AES reads 16 bytes at a time: the costliest documents
 			seekable: i%2 == 1,
 			bigStm:   i%4 == 1 || i%4 == 2,
 			nPages:   1 + i%3,
 			filters:  2 + i%3,
+		}
+		if i == 8 && !e.Thorough {
+			c.v = pdf.V1_4 // RC4
 		}
 		if e.Thorough {
 			c.filters = 3 + R.IntN(6)
@@ -407,15 +431,42 @@ func main() {
 			continue
 		}
 		e.Sample(6, map[string]any{"doc": d.name, "class": d.class, "bytes": len(d.data), "objects": len(d.refs)})
-		for mi := range modes {
-			exploreOpen(di, d, mi)
-		}
-		exploreOps(di, d, e.Thorough || di < nFixed+5)
-		if !strings.Contains(d.class, "objstm") {
+		for si, shape := range faultShapes {
+			// the plain sentinel: everything.  The other shapes of the fault error
+			// (wrapping io.EOF / io.ErrUnexpectedEOF, a malformed look-alike, an Is
+			// method claiming io.EOF, a timeout): the one-shot modes `only` and
+			// `half` - in the quick tier on the hand-written documents and the
+			// first writer-made ones
+			if si > 0 && !(e.Thorough || di < nFixed+1) {
+				break
+			}
+			curShape, errInj, activeModes = shape, shape.err, fmodes
+			if si > 0 {
+				activeModes = []fmode{fmOnly, fmHalf}
+				if di >= nFixed && !e.Thorough {
+					activeModes = []fmode{fmOnly}
+				}
+			}
 			for mi := range modes {
-				exploreSeq(di, d, mi)
+				if si > 0 && mi == 1 && !e.Thorough {
+					continue // Report mode differs from Recover only in what is recorded
+				}
+				exploreOpen(di, d, mi)
+			}
+			exploreOps(di, d, e.Thorough || di < nFixed+5)
+			if !strings.Contains(d.class, "objstm") {
+				for mi := range modes {
+					if si > 0 && mi > 0 && !e.Thorough {
+						continue
+					}
+					exploreSeq(di, d, mi)
+				}
+			}
+			if aborted() {
+				break
 			}
 		}
+		curShape, errInj, activeModes = faultShapes[0], errPlain, fmodes
 		if aborted() {
 			break
 		}
